@@ -640,7 +640,11 @@ class CoreScenario(Scenario):
             inner = [b["bid"] for b in n["branches"]]
             if any(self.admissible(b, stim, obs) for b in inner):
                 continue
-            if n.get("nonblocking") and not any(stim.get(b["cond"], 0) for b in n["branches"] if b.get("cond")):
+            # nonblocking lets the body run without a branch only when *no* condition holds; with an explicit default
+            # branch some condition always holds (the default's is "no other condition holds")
+            has_default = any(not b.get("cond") for b in n["branches"])
+            if n.get("nonblocking") and not has_default and \
+                    not any(stim.get(b["cond"], 0) for b in n["branches"] if b.get("cond")):
                 continue
             return False
         return True
@@ -699,8 +703,9 @@ class CoreScenario(Scenario):
                     self.hit("cond_overlapping_conditions_one_chosen")
                 if n["branches"][brs.index(b)].get("cond") is None:
                     self.hit("cond_default_ran")
+            has_default = any(not b.get("cond") for b in n["branches"])
             if erun and not ran:
-                if not (n.get("nonblocking") and not any(conds)):
+                if not (n.get("nonblocking") and not any(conds) and not has_default):
                     raise Violation("condition-body-ran-without-branch",
                                     f"{encl} runs, no branch of {cid} runs (nonblocking={bool(n.get('nonblocking'))}, conditions={conds})", cond=cid)
                 self.hit("cond_nonblocking_fallthrough")
